@@ -1051,3 +1051,4 @@ MANIFEST = {
             "Trusted: the value-kind fact table (Appendix B of DESIGN.md) and CPython's ast.",
     "technique": "codec-schema extraction + writer/reader set agreement + first-match dispatch evaluation (AST)",
 }
+MANIFEST["text"] += ' Also: element-wise encoded sequences are decoded in numeric index order (R10); the gzip+dill probe on raw array bytes falls back on every exception (R11).'
